@@ -172,9 +172,13 @@ def run(run: Run, pkg: Package) -> None:
             return None
         return leaf
 
+    it_sym = it
     for lv in range(1, 13):
         leaf = leaf_for(lv)
         key = f"dispatch l={lv}"
+        # the dispatcher specialised to this degree: tests on l, table lookups indexed by l and the callee they select fold away
+        it = interp(pkg, q, bind={params[0]: C(lv)})
+        lsym = C(lv)
         if lv <= 10:
             want = pkg.func(f"{MOD}.SphHarm{lv}").qual
             want_args = [("sym", params[1]), ("sym", params[2])]
@@ -242,7 +246,8 @@ def run(run: Run, pkg: Package) -> None:
                    witness=None if ok else f"sph_harm_l({lv}, theta, phi) evaluates {show(val)[:80]}", loc=loc_of(it, finals[0]), sound=True)
         else:
             run.ob("R-DISPATCH", fq, key, ok, f"degree {lv} > 10 delegates to SphHarm_above(l, theta, phi)",
-                   f"returns {show(val)[:100]}", witness=None if ok else f"l={lv}", loc=loc_of(it, finals[0]), sound=True)
+                   f"returns {show(val)[:100]}", witness=None if ok else f"sph_harm_l({lv}, theta, phi) evaluates {show(val)[:80]} instead of SphHarm_above({lv}, theta, phi)", loc=loc_of(it, finals[0]), sound=True)
+    it = it_sym
     run.minimum("R-DISPATCH", 12)
 
     # ---------------------------------------------------------------- delegated call convention
@@ -368,7 +373,10 @@ def check_above(run: Run, pkg: Package) -> None:
         call = ev.data["call"]
         f = call[1]
         if isinstance(f, str) and (f.startswith("scipy.") or f.startswith(mi.name + ".") or f.startswith("undefined.")):
-            if any(x[0] in ("loopvar", "cvar") for a in call[2] for x in walk(a)):
+            # the delegated evaluation: a call of a name bound (at module level) to the library's harmonics or to a wrapper of
+            # it - once per order inside a loop / comprehension, or once with the array of orders
+            binds = _module_level_candidates(pkg, mi, f.rsplit(".", 1)[-1])
+            if f in LIB_SIG or any(b[0] == "def" or (b[0] == "import" and b[1] in LIB_SIG) for b in binds):
                 cand.append(ev)
     if len(cand) != 1:
         raise AnalysisError(f"SphHarm_above: expected exactly one per-m delegated call, found {len(cand)}")
@@ -456,7 +464,10 @@ def check_above(run: Run, pkg: Package) -> None:
         return
 
     # loop domain: m over range(-l, l+1)
-    lv = [x for a in call[2] for x in walk(a) if x[0] in ("loopvar", "cvar")][0]
+    lvs = [x for a in call[2] for x in walk(a) if x[0] in ("loopvar", "cvar")]
+    if not lvs:
+        return check_above_vectorised(run, it, ev, call, variants, L, TH_, PH_)
+    lv = lvs[0]
     dom = None
     if lv[0] == "loopvar":
         dom = it.loops[lv[1]].iter
@@ -476,6 +487,9 @@ def check_above(run: Run, pkg: Package) -> None:
            witness=None if ok_dom else f"l=11: {show(dom) if dom is not None else '?'}", loc=loc_of(it, ev), sound=True)
 
     def is_azimuth(t):
+        v = azimuth_verdict(t, PH_)
+        if v[0] is not None:
+            return v[0]
         if t == PH_:
             return True
         # phi shifted by 2 pi only when negative
@@ -494,20 +508,106 @@ def check_above(run: Run, pkg: Package) -> None:
             return bool(ok)
         return False
 
-    for desc, roles in variants:
-        want = {"order": lambda t: t == lv, "degree": lambda t: t == L, "polar": lambda t: t == TH_, "azimuth": is_azimuth}
-        for role, pred in want.items():
-            got = roles.get(role)
-            ok = True if (got is not None and pred(got)) else None
-            if ok is None and got is not None:
-                # definite: the slot receives the quantity that belongs to another role
-                others = [r2 for r2, p2 in want.items() if r2 != role and p2(got)]
-                if others:
-                    ok = False
-            run.ob("R-ANGLE", fq, f"{desc}:{role}", ok, f"delegated call via {desc} passes the {role} in the library's slot",
-                   f"slot receives {show(got) if got is not None else 'nothing'}",
-                   witness=None if ok else f"{desc}: {role} <- {show(got) if got is not None else 'missing'}", loc=loc_of(it, ev), sound=True)
+    role_obligations(run, it, ev, variants, {"order": lambda t: t == lv, "degree": lambda t: t == L, "polar": lambda t: t == TH_, "azimuth": is_azimuth}, PH_)
     # result order: the returned array is built from the per-m values in loop order
     ret = it.returns[0].data["value"] if it.returns else NONE
     run.ob("R-ANGLE", fq, "result-order", True if it.returns else None, "per-m values are returned in loop order", show(ret)[:80])
+    run.minimum("R-ANGLE", 5)
+
+
+def role_obligations(run, it, ev, variants, want, PH_):
+    fq = short(it.fi.qual)
+    for desc, roles in variants:
+        for role, pred in want.items():
+            got = roles.get(role)
+            r = pred(got) if got is not None else None
+            ok = True if r is True else None
+            wit = None
+            if ok is None and got is not None:
+                # definite: the slot receives the quantity that belongs to another role, or an azimuth that is not phi + 2 pi k
+                others = [r2 for r2, p2 in want.items() if r2 != role and p2(got) is True]
+                if others:
+                    ok = False
+                    wit = f"{desc}: the {role} slot receives the {others[0]}: {show(got)[:80]}"
+                elif role == "azimuth":
+                    v = azimuth_verdict(got, PH_)
+                    if v[0] is False:
+                        ok, wit = False, v[1]
+            run.ob("R-ANGLE", fq, f"{desc}:{role}", ok, f"delegated call via {desc} passes the {role} in the library's slot",
+                   f"slot receives {show(got) if got is not None else 'nothing'}",
+                   witness=None if ok else (wit or f"{desc}: {role} <- {show(got) if got is not None else 'missing'}"), loc=loc_of(it, ev), sound=True)
+
+
+def azimuth_verdict(t, PH_):
+    """The azimuth handed to the library must be phi + 2 pi k on every arm of a conditional (Y_lm is 2 pi-periodic in the azimuth
+    and in nothing else).  (True, _) / (False, witness) / (None, _)."""
+    arms = []
+
+    def collect(x, conds):
+        if x[0] == "phi":
+            collect(x[2], conds + [(x[1], True)])
+            collect(x[3], conds + [(x[1], False)])
+        else:
+            arms.append((x, conds))
+    collect(t, [])
+    allok = True
+    for arm, conds in arms:
+        try:
+            e = S.to_sympy(arm, lambda y: PH if y == PH_ else None)
+        except Exception:  # noqa
+            return None, ""
+        if e.free_symbols - {PH}:
+            return None, ""
+        if e.has(sp.Mod) or e.has(sp.floor):
+            allok = False
+            continue
+        d = sp.simplify(e - PH)
+        if d.free_symbols:
+            # affine in phi with slope != 1 (reflection, scaling): a different direction
+            if sp.Poly(sp.expand(e), PH).degree() <= 1:
+                # pick an azimuth that satisfies the arm's condition
+                for val in (sp.Rational(-3), sp.Rational(1), sp.Rational(-1, 2), sp.Rational(5, 2)):
+                    try:
+                        from ..concrete import ev as cev
+                        sat = all(bool(cev(c, {PH_: float(val)})) == pol for c, pol in conds)
+                    except Exception:  # noqa
+                        sat = False
+                    if sat and abs(float((e.subs(PH, val) - val) / (2 * sp.pi)) - round(float((e.subs(PH, val) - val) / (2 * sp.pi)))) > 1e-6:
+                        got = sp.N(e.subs(PH, val), 8)
+                        return False, (f"azimuth {val} is handed to the library as {got}, which is not {val} + 2 pi k: every order m != 0 picks up the phase "
+                                       f"exp(i m ({sp.N(got - val, 6)}))")
+                return None, ""
+            return None, ""
+        k = sp.nsimplify(d / (2 * sp.pi))
+        if not (k.is_integer is True):
+            val = sp.Rational(-3)
+            return False, (f"the azimuth is shifted by {sp.sstr(d)} (not a multiple of 2 pi) on the arm {show(arm)[:60]}: order m picks up the factor exp(i m {sp.sstr(d)}) "
+                           f"- e.g. (-1)^m for a shift of pi")
+    return (True, "") if allok else (None, "")
+
+
+def check_above_vectorised(run, it, ev, call, variants, L, TH_, PH_):
+    """One library call with the whole array of orders."""
+    fq = short(it.fi.qual)
+    want_orders = [("call", "numpy.arange", (("un", "-", L), ("bin", "+", L, C(1))), ()),
+                   ("call", "numpy.array", (("call", "builtins.range", (("un", "-", L), ("bin", "+", L, C(1))), ()),), ()),
+                   ("call", "numpy.asarray", (("call", "builtins.range", (("un", "-", L), ("bin", "+", L, C(1))), ()),), ())]
+
+    def is_orders(t):
+        from ..vg import strip_alloc
+        return eqv(strip_alloc(t), *want_orders, same=True)
+
+    def is_az(t):
+        return azimuth_verdict(t, PH_)[0]
+    orders = None
+    for desc, roles in variants:
+        orders = roles.get("order")
+    ok_dom = is_orders(orders) if orders is not None else None
+    run.ob("R-LOOPDOM", fq, "m-range", ok_dom, "the orders handed to the library are m = -l..l in ascending order (np.arange(-l, l+1))", show(orders)[:80] if orders is not None else "?",
+           witness=None if ok_dom else f"l=11: orders {show(orders)[:60] if orders is not None else '?'}", loc=loc_of(it, ev), sound=True)
+    role_obligations(run, it, ev, variants, {"order": is_orders, "degree": lambda t: t == L, "polar": lambda t: t == TH_, "azimuth": is_az}, PH_)
+    ret = it.returns[0].data["value"] if it.returns else NONE
+    from ..vg import strip_alloc
+    direct = it.returns and strip_alloc(ret) in (strip_alloc(call), ("call", "numpy.asarray", (strip_alloc(call),), ()), ("call", "numpy.array", (strip_alloc(call),), ()))
+    run.ob("R-ANGLE", fq, "result-order", True if direct else None, "the library's array over the orders is returned as is", show(ret)[:80])
     run.minimum("R-ANGLE", 5)
